@@ -7,6 +7,7 @@ import (
 	"os"
 	"regexp"
 	"strconv"
+	"strings"
 	"sync/atomic"
 	"time"
 
@@ -71,6 +72,78 @@ func genText(rng *rand.Rand, maxLen int) string {
 		}
 		return clip(s+alphabet[rng.Intn(len(alphabet))]+lb[rng.Intn(len(lb))], maxLen)
 	}
+}
+
+// genNumberText: a numeric literal spelling with integer / fraction / exponent parts of 0-40 digits and
+// separators placed at random (valid and invalid placements), embedded in a formula at a random position.
+func genNumberText(rng *rand.Rand) string {
+	digits := func(max int) string {
+		n := rng.Intn(max + 1)
+		b := make([]byte, 0, n+4)
+		for i := 0; i < n; i++ {
+			b = append(b, byte('0'+rng.Intn(10)))
+			if rng.Intn(9) == 0 {
+				b = append(b, '_')
+			}
+		}
+		return string(b)
+	}
+	lit := digits(40)
+	if rng.Intn(2) == 0 {
+		lit += "." + digits(40)
+	}
+	if rng.Intn(3) == 0 {
+		lit += []string{"e", "E"}[rng.Intn(2)] + []string{"", "+", "-"}[rng.Intn(3)] + digits(3)
+	}
+	if rng.Intn(12) == 0 {
+		lit += []string{"a", "x", "_", "e", "$"}[rng.Intn(5)]
+	}
+	ctxs := []string{"%s", "[%s]", "-%s", "%s + %s", "f(%s)", "c ? %s : %s", "[%s, %s]", "%s .x", "(%s)", "$a = %s", "%s\n+ 1", "a.b(%s)"}
+	c := ctxs[rng.Intn(len(ctxs))]
+	return strings.ReplaceAll(strings.ReplaceAll(c, "%s", lit), "\\n", "\n")
+}
+
+// genStringText: a text of up to maxLen bytes written as a string literal by a reference escaper that picks
+// one of the equivalent escape forms per character; sometimes left open or broken by a raw line break.
+func genStringText(rng *rand.Rand, maxLen int) string {
+	quote := []byte{'\'', '"'}[rng.Intn(2)]
+	n := rng.Intn(maxLen)
+	var sb strings.Builder
+	sb.WriteByte(quote)
+	pool := []rune{'a', 'b', ' ', '\'', '"', '\\', '\n', '\r', '\t', 0, 8, 12, 11, '1', 'n', 'x', 'u', 'f', 'é', '中', '\u2028', '\u0085', 'Z', '0', '7', '~', '\U0001F600'}
+	for i := 0; i < n; i++ {
+		c := pool[rng.Intn(len(pool))]
+		simple := map[rune]string{'\'': "\\'", '"': "\\\"", '\\': "\\\\", '\n': "\\n", '\r': "\\r", '\t': "\\t", 8: "\\b", 12: "\\f", 11: "\\v", 0: "\\0"}
+		forms := []string{}
+		if c != rune(quote) && c != '\\' && !formula.IsLineBreak(c) {
+			forms = append(forms, string(c))
+		}
+		if s, ok := simple[c]; ok {
+			forms = append(forms, s)
+		}
+		if c < 256 {
+			forms = append(forms, fmt.Sprintf("\\x%02x", c), fmt.Sprintf("\\x%02X", c))
+		}
+		if c < 65536 {
+			forms = append(forms, fmt.Sprintf("\\u%04x", c), fmt.Sprintf("\\u%04X", c))
+		}
+		sb.WriteString(forms[rng.Intn(len(forms))])
+	}
+	switch rng.Intn(12) {
+	case 0: // left open at the end of input
+	case 1: // left open at a raw line break
+		sb.WriteString([]string{"\n", "\r", "\u2028", "\u0085"}[rng.Intn(4)])
+		sb.WriteByte(quote)
+	case 2: // an invalid byte inside
+		sb.WriteString("\xff")
+		sb.WriteByte(quote)
+	default:
+		sb.WriteByte(quote)
+	}
+	if rng.Intn(4) == 0 {
+		return "[" + sb.String() + ", " + sb.String() + "]"
+	}
+	return sb.String()
 }
 
 func clip(s string, n int) string {
@@ -159,6 +232,7 @@ func recordParse(args []string) int {
 	out := fs.String("out", "", "output ndjson")
 	seed := fs.Int64("seed", 1, "seed")
 	n := fs.Int("n", 1000, "number of texts")
+	mode := fs.String("mode", "mixed", "mixed | numbers | strings")
 	maxLen := fs.Int("maxlen", 60, "maximal text length in bytes")
 	one := fs.String("one", "", "re-execute the text of this event")
 	fs.Parse(args)
@@ -178,7 +252,14 @@ func recordParse(args []string) int {
 	} else {
 		rng := rand.New(rand.NewSource(*seed))
 		for i := 0; i < *n; i++ {
-			evs = append(evs, ParseEvent([]byte(genText(rng, *maxLen))))
+			switch *mode {
+			case "numbers":
+				evs = append(evs, ParseEvent([]byte(genNumberText(rng))))
+			case "strings":
+				evs = append(evs, ParseEvent([]byte(genStringText(rng, *maxLen))))
+			default:
+				evs = append(evs, ParseEvent([]byte(genText(rng, *maxLen))))
+			}
 		}
 	}
 	if err := writeEvents(*out, evs); err != nil {
